@@ -222,6 +222,22 @@ static void build(PolyMesh& m, vh::Rng& rng) {
             m.add_cell(hfs);
         }
     }
+    // two stacked 20-gon prisms (40 vertices, 22 faces each; they share one 20-gon): cells beyond any small-size fast path
+    {
+        const int N = 20;
+        std::vector<std::vector<VertexHandle>> lay(3);
+        for (int l = 0; l < 3; ++l) for (int i = 0; i < N; ++i)
+            lay[size_t(l)].push_back(m.add_vertex(Vec3d(40 + std::cos(6.283185307179586 * i / N), 40 + std::sin(6.283185307179586 * i / N), l)));
+        for (int l = 0; l < 2; ++l) {
+            const auto &lo = lay[size_t(l)], &hi = lay[size_t(l) + 1];
+            std::vector<HalfFaceHandle> hfs;
+            hfs.push_back(get_or_add_halfface(m, std::vector<VertexHandle>(lo.rbegin(), lo.rend())));
+            hfs.push_back(get_or_add_halfface(m, hi));
+            for (int i = 0; i < N; ++i) hfs.push_back(get_or_add_halfface(m, {lo[size_t(i)], lo[size_t((i + 1) % N)], hi[size_t((i + 1) % N)], hi[size_t(i)]}));
+            for (auto& hf : hfs) if (m.incident_cell(hf).is_valid()) hf = m.opposite_halfface_handle(hf);
+            m.add_cell(hfs);
+        }
+    }
     // an isolated vertex, a dangling edge and a dangling face
     VertexHandle iso = m.add_vertex(Vec3d(9, 9, 9));
     VertexHandle d0 = m.add_vertex(Vec3d(8, 8, 8));
@@ -306,14 +322,14 @@ template <class M> struct Suite {
     // "hot" entities: the edge and the vertex of highest valence (a fan of 24 cells in the polyhedral mesh) are picked
     // every fourth time, so that code paths that only large neighbourhoods reach (size thresholds, scratch buffers)
     // are exercised by every circulator query, single- and multi-threaded
-    int hot_e = -1, hot_v = -1;
+    int hot_e = -1, hot_v = -1, hot_c = -1, hot_c2 = -1;     // hot_c/hot_c2: the two cells with most halffaces (20-gon prisms in poly)
     VertexHandle rv(vh::Rng& r) const { if (hot_v >= 0 && r.chance(1, 4)) return VertexHandle(hot_v); return VertexHandle(int(r.below(m.n_vertices()))); }
     EdgeHandle re(vh::Rng& r) const { if (hot_e >= 0 && r.chance(1, 4)) return EdgeHandle(hot_e); return EdgeHandle(int(r.below(m.n_edges()))); }
     HalfEdgeHandle rhe(vh::Rng& r) const { if (hot_e >= 0 && r.chance(1, 4)) return HalfEdgeHandle(2 * hot_e + int(r.below(2))); return HalfEdgeHandle(int(r.below(m.n_halfedges()))); }
     FaceHandle rf(vh::Rng& r) const { return FaceHandle(int(r.below(m.n_faces()))); }
     HalfFaceHandle rhf(vh::Rng& r) const { return HalfFaceHandle(int(r.below(m.n_halffaces()))); }
-    CellHandle rc(vh::Rng& r) const { return CellHandle(int(r.below(m.n_cells()))); }
-    CellHandle rlc(vh::Rng& r) const { return r.pick(livec); }
+    CellHandle rc(vh::Rng& r) const { if (hot_c >= 0 && r.chance(1, 4)) return CellHandle(r.chance(1, 2) && hot_c2 >= 0 ? hot_c2 : hot_c); return CellHandle(int(r.below(m.n_cells()))); }
+    CellHandle rlc(vh::Rng& r) const { if (hot_c >= 0 && r.chance(1, 4)) return CellHandle(r.chance(1, 2) && hot_c2 >= 0 ? hot_c2 : hot_c); return r.pick(livec); }
     HalfFaceHandle rbhf(vh::Rng& r) const { return r.pick(bhf); }
 
     void add(const char* name, const char* covers, std::function<uint64_t(vh::Rng&)> f) {
@@ -330,6 +346,8 @@ template <class M> struct Suite {
         size_t be = 0, bv = 0;
         for (auto e : m.edges()) if (m.valence(e) > be) { be = m.valence(e); hot_e = e.idx(); }
         for (auto v : m.vertices()) if (m.valence(v) > bv) { bv = m.valence(v); hot_v = v.idx(); }
+        size_t bc = 6, bc2 = 6;     // only cells larger than a hexahedron count as "hot"
+        for (auto c : livec) { size_t n = m.cell(c).halffaces().size(); if (n > bc) { bc2 = bc; hot_c2 = hot_c; bc = n; hot_c = c.idx(); } else if (n > bc2) { bc2 = n; hot_c2 = c.idx(); } }
         common();
     }
 
